@@ -340,6 +340,13 @@ func init() {
 		return v, true
 	}
 	reg(`(*math/rand.Rand).Intn math/rand.Intn (*math/rand.Rand).Int63n math/rand.Int63n`, randIntn)
+	// an arbitrary float in [0, 1)
+	reg(`(*math/rand.Rand).Float64 math/rand.Float64`, func(in *Interp, th *Thread, fn *ssa.Function, a []Value) (Value, bool) {
+		f := in.fresh("randf", "clock", F64Sort)
+		in.assume(in.ts.And(in.ts.FCmp(OFLe, in.ts.F64Const(0), f), in.ts.FCmp(OFLt, f, in.ts.F64Const(1))))
+		return f, true
+	})
+	reg(`math/rand.Seed (*math/rand.Rand).Seed`, noop)
 }
 
 func init() {
